@@ -539,3 +539,48 @@ def path_without_wait(fn, is_flag, is_wait_event):
     waiting event happens, or None."""
     removed = flag_false_edges(fn, is_flag)
     return fn.path_to_exit_avoiding(Pos(fn.entry, -1), is_wait_event, removed_edges=removed), removed
+
+
+def eval_int(fn, e, leaf, depth=12):
+    """Concrete value of an integer expression: constants, + - * / % << >> & |, unary -, std::min /
+    std::max, ?: , single-definition locals (through their initialiser); everything else is asked of
+    leaf(node) -> int or None. None = not evaluable (callers treat that as inconclusive)."""
+    e = strip_casts(e)
+    if depth <= 0 or not isinstance(e, dict):
+        return None
+    v = leaf(e)
+    if v is not None:
+        return v
+    v = const_val(e)
+    if v is not None:
+        return int(v)
+    k = e.get("k")
+    if k == "bin":
+        l, r = eval_int(fn, e.get("l"), leaf, depth - 1), eval_int(fn, e.get("r"), leaf, depth - 1)
+        if l is None or r is None:
+            return None
+        op = e.get("op")
+        try:
+            return {"+": lambda: l + r, "-": lambda: l - r, "*": lambda: l * r, "/": lambda: l // r if r else None, "%": lambda: l % r if r else None,
+                    "<<": lambda: l << r, ">>": lambda: l >> r, "&": lambda: l & r, "|": lambda: l | r,
+                    "<": lambda: int(l < r), "<=": lambda: int(l <= r), ">": lambda: int(l > r), ">=": lambda: int(l >= r), "==": lambda: int(l == r), "!=": lambda: int(l != r)}[op]()
+        except KeyError:
+            return None
+    if k == "un" and e.get("op") == "-":
+        x = eval_int(fn, e.get("e"), leaf, depth - 1)
+        return -x if x is not None else None
+    if k == "cond":
+        c = eval_int(fn, e.get("c"), leaf, depth - 1)
+        if c is None:
+            return None
+        return eval_int(fn, e.get("t") if c else e.get("f"), leaf, depth - 1)
+    if k == "call" and e.get("callee") in ("std::max", "std::min"):
+        vs = [eval_int(fn, a, leaf, depth - 1) for a in e.get("args", [])]
+        if any(x is None for x in vs) or not vs:
+            return None
+        return max(vs) if e["callee"] == "std::max" else min(vs)
+    if k == "var" and e.get("vk") == "local":
+        d = single_def_value(fn, e)
+        if d is not None:
+            return eval_int(fn, d, leaf, depth - 1)
+    return None
